@@ -150,6 +150,9 @@ type backend struct {
 	tick  func(d int64)
 	reset func()
 	last  string
+	// etcd only: current store revision and the deploy/processing keys as of a past revision
+	revNow func() int64
+	atRev  func(rev int64) [][3]any
 }
 
 type env struct {
@@ -185,6 +188,26 @@ func setup(t *testing.T) *env {
 				ttl = vle.remaining(clientv3.LeaseID(kv.Lease))
 			}
 			out = append(out, [3]any{string(kv.Key), canonVal(string(kv.Key), string(kv.Value)), ttl})
+		}
+		return out
+	}
+	eb.revNow = func() int64 {
+		resp, err := cli.Get(ctx, "/verif-rev-probe")
+		if err != nil {
+			return -1
+		}
+		return resp.Header.Revision
+	}
+	eb.atRev = func(rev int64) [][3]any {
+		out := [][3]any{}
+		for _, pfx := range []string{"/deploy/", "/processing/"} {
+			resp, err := cli.Get(ctx, pfx, clientv3.WithPrefix(), clientv3.WithRev(rev))
+			if err != nil {
+				return [][3]any{{"!dump-error", err.Error(), 0}}
+			}
+			for _, kv := range resp.Kvs {
+				out = append(out, [3]any{string(kv.Key), canonVal(string(kv.Key), string(kv.Value)), 0})
+			}
 		}
 		return out
 	}
@@ -617,6 +640,10 @@ func runCaseOnce(ctx context.Context, e *env, k *kase) int {
 		o.Impl = map[string]any{}
 		for _, b := range []*backend{e.etcd, e.redis} {
 			var res map[string]any
+			revBefore := int64(-1)
+			if k.Kind == "deploy" && b.revNow != nil {
+				revBefore = b.revNow()
+			}
 			kind, msg := hx.Guard(20*time.Second, func() { res = exec(ctx, b, o) })
 			if kind != "" {
 				res = map[string]any{"err": kind + ":" + msg}
@@ -634,6 +661,17 @@ func runCaseOnce(ctx context.Context, e *env, k *kase) int {
 				entry["kv"] = d
 				b.last = string(js)
 			}
+			// every intermediate etcd revision the operation produced (C13: the counts must be within
+			// bounds at each of them, i.e. add-workload-and-decrement is ONE transaction)
+			if revBefore >= 0 {
+				if revAfter := b.revNow(); revAfter > revBefore && revAfter-revBefore < 50 {
+					revs := [][][3]any{}
+					for rev := revBefore + 1; rev <= revAfter; rev++ {
+						revs = append(revs, b.atRev(rev))
+					}
+					entry["revs"] = revs
+				}
+			}
 			o.Impl[b.name] = entry
 		}
 	}
@@ -644,10 +682,10 @@ func runCaseOnce(ctx context.Context, e *env, k *kase) int {
 
 var (
 	pods    = []string{"p1", "p2", "p3"}
-	nodesU  = []string{"n1", "n2", "n3", "n4"}
+	nodesU  = []string{"n1", "n2", "n3", "n1x"}
 	wlsU    = []string{"w1", "w2", "w3", "w4", "w5", "w6"}
-	appsU   = []string{"a1", "a2"}
-	entryU  = []string{"e1", "e2"}
+	appsU   = []string{"a1", "a1x"}
+	entryU  = []string{"e1", "e1x"}
 	identsU = []string{"i1", "i2"}
 )
 
@@ -751,6 +789,12 @@ func (g *gen) next() *op {
 			return &op{Op: "getNodeStatus", Name: hx.Pick(r, nodesU...)}
 		case w < 70:
 			return &op{Op: "getWorkloads", Names: []string{hx.Pick(r, wlsU...)}}
+		case w < 76:
+			n := g.nodeArg(hx.Pick(r, nodesU...))
+			n.Pod = g.npod[n.Name]
+			return &op{Op: hx.Pick(r, "removeNode", "addNode"), Node: n}
+		case w < 80:
+			return &op{Op: hx.Pick(r, "removeWorkload", "addWorkload"), Wl: g.wl(hx.Pick(r, wlsU...))}
 		}
 		w = r.Intn(100)
 	}
@@ -814,7 +858,7 @@ func (g *gen) next() *op {
 	case w < 79:
 		return g.setWlStatus()
 	case w < 84:
-		o := &op{Op: "listWorkloads", App: hx.Pick(r, "", "a1", "a2"), Entry: hx.Pick(r, "", "e1", "e2"), Nodename: hx.Pick(r, "", "n1", "n2")}
+		o := &op{Op: "listWorkloads", App: hx.Pick(r, "", "a1", "a1x"), Entry: hx.Pick(r, "", "e1", "e1x"), Nodename: hx.Pick(r, "", "n1", "n1x")}
 		if r.Chance(30) {
 			o.Limit = int64(r.Range(1, 3))
 		} else {
@@ -840,6 +884,13 @@ func (g *gen) again() *op {
 	}
 	o := *g.lastS[g.r.Intn(len(g.lastS))]
 	o.Impl = nil
+	if g.r.Chance(35) { // same value, another ttl (shorter, longer, none)
+		if o.Op == "setNodeStatus" {
+			o.TTL = int64(hx.Pick(g.r, 2, 3, 5))
+		} else {
+			o.TTL = int64(hx.Pick(g.r, 0, 2, 3, 5, 10))
+		}
+	}
 	return &o
 }
 
@@ -901,7 +952,7 @@ func (g *gen) nextC13() *op {
 	w := r.Intn(100)
 	switch {
 	case w < 20 && len(c13deps) < 3:
-		p := &procArg{App: hx.Pick(r, appsU...), Entry: "e1", Node: hx.Pick(r, "n1", "n2"), Ident: fmt.Sprintf("i%d", r.Intn(4))}
+		p := &procArg{App: hx.Pick(r, appsU...), Entry: hx.Pick(r, "e1", "e1x"), Node: hx.Pick(r, "n1", "n1x"), Ident: fmt.Sprintf("i%d", r.Intn(4))}
 		for _, d := range c13deps {
 			if *d.p == *p {
 				return emit(&op{Op: "createProcessing", Proc: p, Count: r.Range(1, 3)}, p.App, p.Entry) // duplicate: must fail
@@ -937,13 +988,13 @@ func (g *gen) nextC13() *op {
 		c13deps = append(c13deps[:i], c13deps[i+1:]...)
 		return emit(&op{Op: "deleteProcessing", Proc: d.p}, d.p.App, d.p.Entry)
 	}
-	return &op{Op: "getDeployStatus", App: hx.Pick(r, appsU...), Entry: "e1"}
+	return &op{Op: "getDeployStatus", App: hx.Pick(r, appsU...), Entry: hx.Pick(r, "e1", "e1x")}
 }
 
 func genCase(r *hx.Rng, id string, prop string) *kase {
 	g := &gen{r: r, home: map[string]home{}, npod: map[string]string{}, c13: prop == "C13", c25: prop == "C25"}
 	for _, w := range wlsU {
-		g.home[w] = home{app: hx.Pick(r, appsU...), entry: hx.Pick(r, entryU...), node: hx.Pick(r, "n1", "n2", "n3")}
+		g.home[w] = home{app: hx.Pick(r, appsU...), entry: hx.Pick(r, entryU...), node: hx.Pick(r, "n1", "n1x", "n2")}
 	}
 	for _, n := range nodesU {
 		g.npod[n] = hx.Pick(r, "p1", "p1", "p2")
@@ -958,17 +1009,17 @@ func genCase(r *hx.Rng, id string, prop string) *kase {
 		// a node and a pod so that reads of workloads succeed
 		k.Ops = append(k.Ops, &op{Op: "addPod", Name: "p1"},
 			&op{Op: "addNode", Node: &nodeArg{Name: "n1", Pod: "p1", Endpoint: "mock://n1"}},
-			&op{Op: "addNode", Node: &nodeArg{Name: "n2", Pod: "p1", Endpoint: "mock://n2"}})
+			&op{Op: "addNode", Node: &nodeArg{Name: "n1x", Pod: "p1", Endpoint: "mock://n1x"}})
 		// some prior workloads
 		for i := 0; i < r.Range(0, 3); i++ {
 			g.img++
 			id := fmt.Sprintf("old%d", i)
-			k.Ops = append(k.Ops, &op{Op: "addWorkload", Wl: &wlArg{ID: id, Name: hx.Pick(r, appsU...) + "_e1_x" + id, Node: hx.Pick(r, "n1", "n2"), Image: "old"}})
+			k.Ops = append(k.Ops, &op{Op: "addWorkload", Wl: &wlArg{ID: id, Name: hx.Pick(r, appsU...) + "_" + hx.Pick(r, "e1", "e1x") + "_x" + id, Node: hx.Pick(r, "n1", "n1x"), Image: "old"}})
 		}
 	} else if r.Chance(70) {
 		// warm start: pods and most nodes exist
 		k.Ops = append(k.Ops, &op{Op: "addPod", Name: "p1", Desc: "d"}, &op{Op: "addPod", Name: "p2"})
-		for _, nm := range []string{"n1", "n2", "n3"} {
+		for _, nm := range []string{"n1", "n1x", "n2"} {
 			if r.Chance(80) {
 				na := g.nodeArg(nm)
 				na.Pod = g.npod[nm]
@@ -985,7 +1036,43 @@ func genCase(r *hx.Rng, id string, prop string) *kase {
 // fixed corpus: past divergences first
 func corpus() []*kase {
 	w := func(id, node string) *wlArg { return &wlArg{ID: id, Name: "a1_e1_x" + id, Node: node, Image: "c"} }
+	wn := func(id, app, entry, node string) *wlArg {
+		return &wlArg{ID: id, Name: app + "_" + entry + "_x" + id, Node: node, Image: "c"}
+	}
 	return []*kase{
+		// names that are prefixes of one another: counts and lists must not leak across them
+		{ID: "corpus-prefix-names", Kind: "seq", Ops: []*op{
+			{Op: "addPod", Name: "p1"},
+			{Op: "addNode", Node: &nodeArg{Name: "n1", Pod: "p1", Endpoint: "mock://n1"}},
+			{Op: "addNode", Node: &nodeArg{Name: "n1x", Pod: "p1", Endpoint: "mock://n1x"}},
+			{Op: "addWorkload", Wl: wn("w1", "a1", "e1", "n1")}, {Op: "addWorkload", Wl: wn("w2", "a1", "e1x", "n1")},
+			{Op: "addWorkload", Wl: wn("w3", "a1x", "e1", "n1")}, {Op: "addWorkload", Wl: wn("w4", "a1", "e1", "n1x")},
+			{Op: "createProcessing", Proc: &procArg{App: "a1", Entry: "e1x", Node: "n1", Ident: "i1"}, Count: 2},
+			{Op: "createProcessing", Proc: &procArg{App: "a1", Entry: "e1", Node: "n1", Ident: "i1"}, Count: 1},
+			{Op: "createProcessing", Proc: &procArg{App: "a1", Entry: "e1", Node: "n1", Ident: "i2"}, Count: 3},
+			{Op: "getDeployStatus", App: "a1", Entry: "e1"}, {Op: "getDeployStatus", App: "a1", Entry: "e1x"},
+			{Op: "getDeployStatus", App: "a1x", Entry: "e1"},
+			{Op: "listWorkloads", App: "a1", Entry: "e1", Nodename: "n1"}, {Op: "listWorkloads", App: "a1", Entry: "e1"},
+			{Op: "listNodeWorkloads", Nodename: "n1"},
+		}},
+		// a node status heartbeat (same value, same ttl) after the node was removed must be rejected;
+		// same value with a shorter ttl / without ttl must replace the lifetime
+		{ID: "corpus-status-renewal", Kind: "seq", Ops: []*op{
+			{Op: "addPod", Name: "p1"}, {Op: "addNode", Node: &nodeArg{Name: "n1", Pod: "p1", Endpoint: "bogus://n1", Ca: "CA", Cert: "CERT", Key: "KEY"}},
+			{Op: "setNodeStatus", Node: &nodeArg{Name: "n1", Pod: "p1"}, TTL: 5},
+			{Op: "setNodeStatus", Node: &nodeArg{Name: "n1", Pod: "p1"}, TTL: 2}, {Op: "tick", D: 3}, {Op: "getNodeStatus", Name: "n1"},
+			{Op: "setNodeStatus", Node: &nodeArg{Name: "n1", Pod: "p1"}, TTL: 5},
+			{Op: "removeNode", Node: &nodeArg{Name: "n1", Pod: "p1"}}, {Op: "loadNodeCert", Name: "n1"},
+			{Op: "setNodeStatus", Node: &nodeArg{Name: "n1", Pod: "p1"}, TTL: 5},
+			{Op: "addNode", Node: &nodeArg{Name: "n1", Pod: "p1", Endpoint: "bogus://n1"}}, {Op: "loadNodeCert", Name: "n1"},
+			{Op: "addWorkload", Wl: w("w1", "n1")},
+			{Op: "setWorkloadStatus", Name: "w1", App: "a1", Entry: "e1", Nodename: "n1", TTL: 5, Running: true},
+			{Op: "setWorkloadStatus", Name: "w1", App: "a1", Entry: "e1", Nodename: "n1", TTL: 0, Running: true},
+			{Op: "tick", D: 10}, {Op: "getWorkloads", Names: []string{"w1"}},
+			{Op: "setWorkloadStatus", Name: "w1", App: "a1", Entry: "e1", Nodename: "n1", TTL: 10, Running: true},
+			{Op: "setWorkloadStatus", Name: "w1", App: "a1", Entry: "e1", Nodename: "n1", TTL: 2, Running: true},
+			{Op: "tick", D: 3}, {Op: "getWorkloads", Names: []string{"w1"}},
+		}},
 		{ID: "corpus-batchcreate", Kind: "seq", Ops: []*op{
 			{Op: "addPod", Name: "p1"}, {Op: "addPod", Name: "p2"},
 			{Op: "addNode", Node: &nodeArg{Name: "n1", Pod: "p1", Endpoint: "mock://n1"}},
@@ -1049,6 +1136,9 @@ func TestGen(t *testing.T) {
 		return
 	}
 	for _, k := range corpus() {
+		if prop == "C13" && k.ID == "corpus-prefix-names" {
+			k.Kind = "deploy"
+		}
 		runCase(ctx, e, k)
 		out.Emit(k)
 	}
